@@ -91,7 +91,26 @@ Corners(q) == {q[1], q[2], q[3], q[4]}
 RefTris(c) == SetToSeq(UNION {{<<q[1], q[2], q[3]>>, <<q[1], q[3], q[4]>>} : q \in Quads(c)})
 
 Undirected(E) == {{e[1], e[2]} : e \in E}
-RefBoundary(c) == Undirected(Unpaired(RefTris(c)))
+
+\* Closedness is a matter of INCIDENCE, not of orientation: an undirected edge used by
+\* exactly one triangle is a boundary edge, no edge may be used by more than two.
+\* Edges are coded as integers (min * M + max over the integer keys of the logical ids)
+\* and counted in a sorted sequence.
+Key(c, lid) == lid[1] * RingLen(c) + lid[2]
+ECode(c, x, y) ==
+    LET a == Key(c, x)
+        b == Key(c, y)
+        M == NRings(c) * RingLen(c) + 1
+    IN IF a < b THEN a * M + b ELSE b * M + a
+SortedEdgeCodes(c, TL) ==
+    SortSeq([i \in 1..(3 * Len(TL)) |->
+                LET t == TL[((i - 1) \div 3) + 1]
+                    j == ((i - 1) % 3) + 1
+                IN ECode(c, t[j], t[(j % 3) + 1])], LAMBDA x, y : x < y)
+UsedOnce(s) == {s[i] : i \in {i \in DOMAIN s : (i = 1 \/ s[i - 1] # s[i]) /\ (i = Len(s) \/ s[i + 1] # s[i])}}
+AtMostTwice(s) == \A i \in 1..(Len(s) - 2) : s[i] # s[i + 2]
+BoundaryCodes(c, TL) == UsedOnce(SortedEdgeCodes(c, TL))
+RefBoundary(c) == BoundaryCodes(c, RefTris(c))
 
 (* ------------------------- classes of input --------------------------- *)
 \* what the constructors must refuse or survive: too few points / sides
@@ -140,7 +159,8 @@ StripsOK(c, TL) ==
                  inq == {i \in DOMAIN TS : TS[i] \subseteq cs}
              IN Cardinality(inq) = 2 /\ UNION {TS[i] : i \in inq} = cs
 
-ClosedAsStated(c, TL) == Undirected(Unpaired(TL)) = RefBoundary(c)
+ClosedAsStated(c, TL) ==
+    LET s == SortedEdgeCodes(c, TL) IN AtMostTwice(s) /\ UsedOnce(s) = RefBoundary(c)
 
 (* ------------------------- ring centres and directions ---------------- *)
 Den(c) == IF c.gen = "spline" THEN c.n - 1 ELSE 1
@@ -264,6 +284,50 @@ LineRing(c, pos, k) ==
              /\ WithinBand(r, c.rad * QS, RadTol)
              /\ AbsI(Dot(r, c.up)) <= PlaneTol
              /\ AbsI(Dot(r, d)) <= PlaneTol * L1(d)
+
+(***************************************************************************)
+(* Classification of an orientation failure (for the SIGNATURE only, never *)
+(* for the verdict).  extrude.polygon() reverses the winding of a quad     *)
+(* whose first triangle's geometric normal points towards the path point   *)
+(* ("we need to flip the windings").  At a bend that is tight for the      *)
+(* radius the inner quads fold over, the test fires for some quads of a    *)
+(* strip only, and the surface is no longer consistently oriented.  A line *)
+(* is classified "geometric-quad-flip" when that is the whole story: the   *)
+(* strips are intact, the two triangles of every quad agree with each      *)
+(* other, and every quad that runs against the reference sense satisfies   *)
+(* the code's own geometric criterion on the recorded positions (slack for *)
+(* the projection's rounding), every other quad does not.  A strip         *)
+(* reversed on a straight tube, a single reversed triangle, a reversed     *)
+(* closing strip keep their ordinary signature.                            *)
+(***************************************************************************)
+PosIn(q, x) == CHOOSE i \in 1..4 : q[i] = x
+CyclicUp(i, j, k) == (i < j /\ j < k) \/ (j < k /\ k < i) \/ (k < i /\ i < j)
+Sense(q, t) == CyclicUp(PosIn(q, t[1]), PosIn(q, t[2]), PosIn(q, t[3]))
+Coarse(v, d) == <<v[1] \div d, v[2] \div d, v[3] \div d>>
+FlipCriterion(c, pos, q) ==           \* <<dot, slack>> of the code's test for the quad starting at <<k, s>>
+    LET k == q[1][1]
+        s == q[1][2]
+        rl == RingLen(c)
+        bl == k * rl + s + 1
+        tr == NextRing(c, k) * rl + s
+        tl == tr + 1
+        e1 == Coarse(VSub(pos[bl + 1], pos[tl + 1]), 4)
+        e2 == Coarse(VSub(pos[tl + 1], pos[tr + 1]), 4)
+        rr == Coarse(Off(c, pos, bl), Den(c))
+        cr == Cross(e1, e2)
+    IN <<Dot(cr, rr), 4 * (L1(e1) + L1(e2) + 4) * (L1(rr) + 4) + 4 * L1(cr)>>
+FlipClass(c, TL, pos) ==
+    IF ~(c.gen \in PolyFamily /\ StripsOK(c, TL)) THEN "none"
+    ELSE LET TS == [i \in DOMAIN TL |-> {TL[i][1], TL[i][2], TL[i][3]}]
+             of(q) == {i \in DOMAIN TL : TS[i] \subseteq Corners(q)}
+             whole == \A q \in Quads(c) : Cardinality({Sense(q, TL[i]) : i \in of(q)}) = 1
+             against == {q \in Quads(c) : \E i \in of(q) : ~Sense(q, TL[i])}
+         IN IF whole /\ against # {} /\ against # Quads(c)
+               /\ \A q \in Quads(c) :
+                     LET f == FlipCriterion(c, pos, q)
+                     IN Small(Off(c, pos, q[1][1] * RingLen(c) + q[1][2] + 1))
+                        /\ (IF q \in against THEN f[1] <= f[2] ELSE f[1] >= -f[2])
+            THEN "geometric-quad-flip" ELSE "none"
 
 (* ------------------------- Screw: closed form ------------------------- *)
 \* sin / cos of a/b of a full turn, times 2^14 (BigNat fixed point, error < 2^-13)
